@@ -360,6 +360,9 @@ func (q *Query) SMT(withModel bool) string {
 	if p.usesDiv {
 		out.WriteString("(define-fun godiv ((a Int) (b Int)) Int (ite (>= a 0) (div a b) (- (div (- a) b))))\n")
 		out.WriteString("(define-fun gomod ((a Int) (b Int)) Int (- a (* b (godiv a b))))\n")
+		// integer division facts for a symbolic divisor (true in SMT-LIB Ints; the solvers only know them for literal divisors)
+		out.WriteString("(assert (forall ((a Int) (b Int)) (! (=> (> b 0) (and (<= 0 (- a (* b (div a b)))) (< (- a (* b (div a b))) b))) :pattern ((div a b)))))\n")
+		out.WriteString("(assert (forall ((a Int) (b Int)) (! (=> (> b 0) (= (mod a b) (- a (* b (div a b))))) :pattern ((mod a b)))))\n")
 	}
 	// always-declared byte helpers
 	p.vars["bnil"] = BNil
